@@ -62,7 +62,7 @@ Section Net.
   Record address := mkAddr { a_ip : ip; a_port : N }.
 
   (* Address::init; None = std::invalid_argument *)
-  Definition address_init (addr : bytes) : option address :=
+  Definition address_init_core (addr : bytes) : option address :=
     match address_parser addr with
     | None => None
     | Some p =>
@@ -86,6 +86,12 @@ Section Net.
             end
         end
     end.
+
+  (* the host goes to C interfaces (getaddrinfo, inet_pton), which stop at a NUL: a text with a NUL in it is refused outright
+     (fix of the fifth round; before, "1.2.3.4\0junk" was 1.2.3.4 and "*\0" the loopback address) *)
+  Definition has_nul (s : bytes) : bool := existsb (fun c => ascii_eqb c c_nul) s.
+  Definition address_init (addr : bytes) : option address :=
+    if has_nul addr then None else address_init_core addr.
 
   (* operator<<(ostream&, const Address&) *)
   Definition print_address (a : address) : bytes :=
